@@ -161,6 +161,7 @@ def cases(seed=20260930, N=2200):
     out.append("ln_pflips - L0 F L0")
 
     # ---- ln_pflip / gumbel_pflip
+    rnd_shift = random.Random(seed ^ 0x5eed7)
     for _ in range(N):
         n = length() if rnd.random() < 0.9 else rnd.randint(1, 6)
         lw = lnweights(n)
@@ -171,6 +172,11 @@ def cases(seed=20260930, N=2200):
                     if seen:
                         lw[i] = math.log(rnd.random() + 1e-9)
                     seen = True
+        if rnd_shift.random() < 0.3:
+            # unnormalised log-weights far from 0: the law is shift-invariant, but exp(+-ln_w) over/underflows beyond ~ +-709/745
+            # (seeded change C13-7: exponential-race keys -ln u * exp(-ln_w) tie at 0 / inf and the first index wins)
+            sh = rnd_shift.choice([-5000.0, -800.0, -760.0, -720.0, -400.0, 400.0, 720.0, 760.0, 800.0, 5000.0])
+            lw = [x + sh if x != -math.inf else x for x in lw]
         out.append("ln_pflip - %s %s" % (fl(lw), wl([word() for _ in range(n)])))
     for w1 in EXT[:8]:
         for w2 in EXT[:8]:
